@@ -24,6 +24,17 @@ def t3(rep, tier, seed):
                            "domains of C01/C03/C05 reduced (n<=4/5); list, ndarray, dict with str names, dict with int names, names+valueof; names in pseudo-random order unrelated to values", chunk=32))
 
 
+def t3_enumerator(rep, tier):
+    """ckk / snp / rnp are presentation-independent only if the bin-combination enumerator yields every distinct pairing whatever the contents
+    look like (lists of equal numbers vs. distinct names): the C13 contract of all_combinations on 5-bin arrays with many coinciding bins"""
+    import itertools
+    pool5 = [[], [1], [2]]
+    dom = [{"b1": [list(x) for x in b1], "b2": [list(x) for x in b2]} for b1 in itertools.combinations_with_replacement(pool5, 5)
+           for b2 in itertools.combinations_with_replacement(pool5, 5)]
+    rep.add(H.run_case("C07/T3/all_combinations/complete-whatever-the-contents", "prtpy/binners.py::all_combinations", T.c13_comb_case, dom,
+                       "all pairs of 5-bin arrays over a pool of 3 small bins (many equal bins); both managers", chunk=64))
+
+
 def run(rep, tier, seed):
     rep.level = "exploration"
     rep.assume("A1", "A4", "A6", "A7", "A8")
@@ -32,4 +43,5 @@ def run(rep, tier, seed):
     D.run_contracts(rep, "C07", D.adaptors(), tier, only_tagged=True)
     D.run_static(rep, "C07", ("purity", "opacity"))      # every per-call contract presupposes that results are functions of the arguments
     t3(rep, tier, seed)
+    t3_enumerator(rep, tier)
     D.link_falsifier(rep)
